@@ -195,11 +195,13 @@ def biclique_shard(combine, transforms, T):
         tally.add("steps")
         xa, xb = xs[t], ~xs[t]
         try:
-            out = layer({"a": (xa,), "b": (xb,)})
+            out, inter = layer({"a": (xa,), "b": (xb,)}, capture_intermediate=True)
         except Exception as ex:
             tally.violation(f"exception:forward:Biclique:{combine}:{type(ex).__name__}", {**case, "step": t}, repr(ex))
             return tally
         oa, ob = ca(xa), cb(xb)
+        ok &= cmp(tally, f"biclique:intermediate", {**case, "step": t, "connection": "a"}, inter["a"], oa, "captured output of connection a")
+        ok &= cmp(tally, f"biclique:intermediate", {**case, "step": t, "connection": "b"}, inter["b"], ob, "captured output of connection b")
         if transforms:
             oa = oa * 2.0
             ob = ob - 0.125
@@ -248,14 +250,17 @@ def recurrent_shard(variant, T):
     for t in range(T):
         tally.add("steps")
         try:
-            o_ff, o_fb = layer(xs[t])
+            (o_ff, o_fb), inter = layer(xs[t], capture_intermediate=True)
         except Exception as ex:
             tally.violation(f"exception:forward:RecurrentSerial:{type(ex).__name__}", {**case, "step": t}, repr(ex))
             return tally
         a, b = ff(xs[t]), fb(prev_fb)
+        ok &= cmp(tally, "recurrent:intermediate", {**case, "step": t, "connection": "feedfwd"}, inter["feedfwd"], a, "captured feed-forward connection output")
+        ok &= cmp(tally, "recurrent:intermediate", {**case, "step": t, "connection": "feedback"}, inter["feedback"], b, "captured feedback connection output")
         drive = (a * 2.0 - b) if transforms else (a + b)
         s_ff = nff(drive)
         l = lat(s_ff)
+        ok &= cmp(tally, "recurrent:intermediate", {**case, "step": t, "connection": "lateral"}, inter["lateral"], l, "captured lateral connection output")
         s_fb = nfb(l + 0.5 if transforms else l)
         prev_fb = s_fb
         ok &= cmp(tally, "recurrent:feedfwd-output", {**case, "step": t}, o_ff, s_ff, "feed-forward spikes")
